@@ -12,7 +12,7 @@ git -C /repo worktree add -q --detach "$WT" HEAD || exit 2
 echo 'package statik' > /tmp/statik-chk.go
 echo "{\"Replace\": {\"$WT/client/docs/statik/statik.go\": \"/tmp/statik-chk.go\"}}" > /tmp/ov-chk-$PID.json
 mkdir -p "$WT/$DEST"; cp -r "$SRC"/demo/. "$WT/$DEST/"
-demo() { if [ "$KIND" = run ]; then ( cd "$WT" && go run -overlay=/tmp/ov-chk-$PID.json "./$DEST" ); else ( cd "$WT/${TESTDIR:-.}" && go test -overlay=/tmp/ov-chk-$PID.json -vet=off -count=1 "${TARGS[@]}" ); fi > /tmp/seedchk-$PID.log 2>&1; echo $?; }
+demo() { if [ "$KIND" = run ]; then ( cd "$WT" && go run -overlay=/tmp/ov-chk-$PID.json "./${RUNPKG:-$DEST}" ); else ( cd "$WT/${TESTDIR:-.}" && go test -overlay=/tmp/ov-chk-$PID.json -vet=off -count=1 "${TARGS[@]}" ); fi > /tmp/seedchk-$PID.log 2>&1; echo $?; }
 echo "[$PID] demo WITHOUT patch: exit $(demo)"
 ( cd "$WT" && git apply "$SRC/patch.diff" ) || { echo "[$PID] patch does not apply"; exit 2; }
 echo "[$PID] demo WITH patch: exit $(demo)"
